@@ -1,4 +1,5 @@
 import re
+from copy import deepcopy
 from ..css_abbreviation import parse as abbreviation, tokens, CSSValue, CSSProperty, FunctionCall
 from ..config import Config
 from ..list_utils import some, get_item
@@ -130,7 +131,10 @@ def resolve_as_property(node: CSSProperty, snippet: CSSSnippetProperty, config: 
         # Replace keyword alias from current abbreviation node with matched keyword
         resolve_value_keywords(node, config, snippet)
     elif snippet.value:
-        default_value = snippet.value[0]
+        # The snippet may come from `config.cache` and be shared with other
+        # calls: numeric tokens of the value are updated in place later
+        # (see `resolve_numeric_value`), so work on a copy
+        default_value = deepcopy(snippet.value[0])
 
         # https://github.com/emmetio/emmet/issues/558
         # We should auto-select inserted value only if there’s multiple value
